@@ -32,3 +32,9 @@ def run(ctx, rep):
     from ..rules import more4
     more4.rule_panel_column(mod, rep)
     more4.rule_segment_scan(mod, rep)
+    from ..rules import lock
+    lock.rule_L2_guarded_by(mod, rep, ctx.config)   # the bump allocators of lusup/lsub/ucol/usub: bound test and bump are one critical section
+    from ..rules import more5
+    more5.rule_snode_tests(mod, rep)
+    from ..rules import more5
+    more5.rule_align_dir(mod, rep)
